@@ -4,6 +4,9 @@ invocation, violation/known-finding protocol, evidence writing.
 Run with /venv/bin/python; the real code is imported from /repo.
 """
 from __future__ import annotations
+import sys as _sys
+if hasattr(_sys, 'set_int_max_str_digits'): _sys.set_int_max_str_digits(0)   # results with million-bit significands are printed, not refused
+
 import json, os, re, subprocess, sys, time, random, hashlib
 from pathlib import Path
 
